@@ -354,9 +354,8 @@ func c15TyForDoc(r *rand.Rand, d *jdoc, depth int) cty.Type {
 		case 0:
 			atys[attrNames[r.Intn(len(attrNames))]] = genTy(r, 1, TyOpts{Dyn: true, Opt: true})
 		case 1:
-			for k := range atys {
-				delete(atys, k)
-				break
+			if ks := sortedKeys(atys); len(ks) > 0 { // never by Go map order: a seed must reproduce its cases
+				delete(atys, ks[r.Intn(len(ks))])
 			}
 		}
 		var opts []string
@@ -526,6 +525,15 @@ func c15Doc(ctx *Ctx, d *jdoc) {
 	if dok {
 		ctx.Tag("doc:docOK")
 	}
+	// docOKU: the hypothesis of C15.doc_roundtrip_any_key_order (distinct normalised keys in ANY order)
+	dokU := docOKUGo(b)
+	ctx.Add("json.docoku", encBool(dokU), tb.String(), tree)
+	if dokU {
+		ctx.Tag("doc:docOKU")
+		if !dok {
+			ctx.Tag("doc:docOKU-unsorted-keys")
+		}
+	}
 	// document round trip
 	st, ok := c15Structural(d)
 	ctx.Eval("doc "+tree, len(d.kids) > 0)
@@ -555,7 +563,7 @@ func c15Doc(ctx *Ctx, d *jdoc) {
 	v, uo := c15Unmarshal(ctx, b, it)
 	if uo != "ok" {
 		cause := "unexpected"
-		if dok {
+		if dok || dokU {
 			cause = "theorem-applies"
 		}
 		fail("unmarshal-"+uo+":"+cause, "Unmarshal with the implied type failed", uo)
